@@ -26,7 +26,10 @@ correspondence in `harness/props/c13.py`):
   previous line and the outcome depends on that text — the model stops with `Err.argInBody` there;
 * `str.format` of the wrap template is modelled for templates whose only braces are `{output_param}` fields, and the
   substituted text is assumed to be a fixed point of `ast.unparse ∘ ast.parse` (templates in `unparse` normal form);
-* `--input-eval`: the evaluated value of the input variable is a parameter (CPython evaluates it).
+* `--input-eval`: the evaluated value of the input variable is a parameter (CPython evaluates it);
+* one (input-param, output-param) pair per call: with repeated `--input-param` / `--output-param` options the real code rewrites an
+  output tree that still carries the `_location`/`_idx` attributes of the first pass (and of input nodes moved into
+  it); that stale state is not modelled.
 -/
 namespace SyncProps
 open PyAst
